@@ -132,7 +132,9 @@ class PersLandscapeApprox(PersLandscape):
         if not dgms and values.size == 0:
             raise ValueError("dgms and values cannot both be emtpy")
         if dgms:  # diagrams are passed
-            self.dgms = dgms[self.hom_deg]
+            # work in double precision whatever the input dtype (float32 diagrams would
+            # otherwise get a float32 grid, on which ties in the snapping fall differently)
+            self.dgms = np.asarray(dgms[self.hom_deg], dtype=np.float64)
             # remove infity values
             self.dgms = self.dgms[~np.any(self.dgms == np.inf, axis=1)]
             # calculate start and stop
